@@ -10,22 +10,28 @@ NVAR == EnvInt("NVAR", 1)
 FAM  == EnvStr("FAM", "curve")       \* curve (C08 render) | flatten (C16)
 SALT == EnvInt("SALT", 0)
 SIZE == 16
-VARIABLES ops, hs, fin
-vars == <<ops, hs, fin>>
+VARIABLES ops, hs, fin, pend
+vars == <<ops, hs, fin, pend>>
 \* points in units of 1/2 px
 Pts == {<<4, 4>>, <<26, 6>>, <<16, 28>>, <<8, 18>>, <<22, 20>>, <<13, 9>>, <<-6, 12>>, <<30, 30>>}
-Init == ops = <<>> /\ hs = SALT /\ fin = FALSE
+Init == ops = <<>> /\ hs = SALT /\ fin = FALSE /\ pend = ""
 HP(p) == p[1] * 7 + p[2] * 3 + 100
-Add(op, h) == /\ ops' = Append(ops, op) /\ hs' = (hs * 31 + h) % 1000003 /\ UNCHANGED fin
-Next ==
-  /\ ~fin
-  /\ \/ /\ Len(ops) < NOPS
-        /\ \/ \E p \in Pts : Add(<<"M", p[1], p[2]>>, HP(p))
-           \/ \E p \in Pts : Add(<<"L", p[1], p[2]>>, 2 * HP(p))
-           \/ \E c \in Pts, p \in Pts : Add(<<"Q", c[1], c[2], p[1], p[2]>>, 3 * HP(c) + HP(p))
-           \/ \E c \in Pts, d \in Pts, p \in Pts : Add(<<"C", c[1], c[2], d[1], d[2], p[1], p[2]>>, 5 * HP(c) + 7 * HP(d) + HP(p))
-           \/ (ops # <<>> /\ ops[Len(ops)][1] # "Z") /\ Add(<<"Z">>, 11)
-     \/ (Len(ops) >= 2 /\ fin' = TRUE /\ UNCHANGED <<ops, hs>>)
+Add(op, h) == /\ ops' = Append(ops, op) /\ hs' = (hs * 31 + h) % 1000003 /\ pend' = "" /\ UNCHANGED fin
+\* the kind of the next op is chosen first (so that simulation picks the five kinds with equal
+\* probability although CubicTo has 512 parameter choices and Close has one), then its points
+ChooseKind == /\ ~fin /\ pend = "" /\ Len(ops) < NOPS
+              /\ \E k \in {"M", "L", "Q", "C", "Z"} :
+                    /\ (k = "Z") => (ops # <<>> /\ ops[Len(ops)][1] # "Z")
+                    /\ pend' = k
+              /\ UNCHANGED <<ops, hs, fin>>
+ChooseArgs == /\ ~fin /\ pend # ""
+              /\ \/ pend = "M" /\ \E p \in Pts : Add(<<"M", p[1], p[2]>>, HP(p))
+                 \/ pend = "L" /\ \E p \in Pts : Add(<<"L", p[1], p[2]>>, 2 * HP(p))
+                 \/ pend = "Q" /\ \E c \in Pts, p \in Pts : Add(<<"Q", c[1], c[2], p[1], p[2]>>, 3 * HP(c) + HP(p))
+                 \/ pend = "C" /\ \E c \in Pts, d \in Pts, p \in Pts : Add(<<"C", c[1], c[2], d[1], d[2], p[1], p[2]>>, 5 * HP(c) + 7 * HP(d) + HP(p))
+                 \/ pend = "Z" /\ Add(<<"Z">>, 11)
+Finish == ~fin /\ pend = "" /\ Len(ops) >= 2 /\ fin' = TRUE /\ UNCHANGED <<ops, hs, pend>>
+Next == ChooseKind \/ ChooseArgs \/ Finish
 HasCurve == \E i \in 1..Len(ops) : ops[i][1] \in {"Q", "C"}
 T(m, d) == [m |-> m, mden |-> d]
 Transforms == << T(<<1, 0, 0, 1, 0, 0>>, 1), T(<<1, 0, 0, 1, 0, 0>>, 1), T(<<1, 0, 0, 1, 2, -1>>, 1), T(<<2, 0, 0, 2, -8, -10>>, 1),
@@ -37,7 +43,7 @@ Variant(j) ==
   THEN [id |-> ToString(<<"gq", hs, j>>), fam |-> "stroke", kind |-> IF (h \div 11) % 5 = 0 THEN "clip" ELSE "fill",
         w |-> SIZE, h |-> SIZE, den |-> 2, ops |-> ops, rule |-> IF (h \div 3) % 2 = 0 THEN "NonZero" ELSE "EvenOdd",
         ctm |-> Transforms[((h \div 5) % Len(Transforms)) + 1]]
-  ELSE [id |-> ToString(<<"gq", hs, j>>), fam |-> "flatten", den |-> 2, ops |-> ops, rule |-> "NonZero",
+  ELSE [id |-> ToString(<<"gq", hs, j>>), fam |-> "flatten", den |-> 2, ops |-> ops, rule |-> IF (h \div 3) % 2 = 0 THEN "NonZero" ELSE "EvenOdd",
         tol |-> Tols[((h \div 5) % Len(Tols)) + 1]]
 Emit == (fin /\ HasCurve) => \A j \in 0..(NVAR - 1) : PrintT(ToJson(Variant(j)))
 =============================================================================
